@@ -47,7 +47,9 @@ listen_dep  yes      Only passive communication mode
 import nfc.clf
 from . import device
 
+import os
 import time
+import errno
 import struct
 import operator
 from functools import reduce
@@ -264,9 +266,12 @@ class Chipset(object):
         timeout = min((timeout + (1 if timeout > 0 else 0)) * 10, 0xFFFF)
         data = self.send_command(0x04,
                                  struct.pack("<H", timeout) + bytes(data))
-        if data and tuple(data[0:4]) != (0, 0, 0, 0):
+        if data is None or len(data) < 4:
+            log.error("no valid response to InCommRF")
+            raise IOError(errno.EIO, os.strerror(errno.EIO))
+        if tuple(data[0:4]) != (0, 0, 0, 0):
             raise CommunicationError(data[0:4])
-        return data[5:] if data else None
+        return data[5:]
 
     def switch_rf(self, switch):
         switch = ("off", "on").index(switch)
